@@ -231,6 +231,11 @@ let run_mem (infile : string) (outfile : string) =
         (match !pending_bg, split_ws l with
          | (_, _, _, _, e) :: _, [_; ms] -> e := Some ms
          | _ -> ())
+      end else if starts_with l "X " then begin
+        (* the connection was closed: the server forgets its selection *)
+        (match split_ws l with
+         | [_; conn] -> srv := srv_disconnect !srv (z_of_string conn)
+         | _ -> failwith "bad X line")
       end else if starts_with l "WD " then begin
         (match split_ws l with [_; ms] -> watchdog_ms := ms | _ -> ())
       end else if starts_with l "T " then begin
